@@ -1071,13 +1071,15 @@ func (s *Server) handleRelease(req *dhcpv4.DHCPv4) {
 			pool.Release(lease.IP)
 		}
 
-		// Remove from fast path cache (MAC-based)
-		macU64 := ebpf.MACToUint64(mac)
-		if err := s.loader.RemoveSubscriber(macU64); err != nil {
-			s.logger.Warn("Failed to remove from fast path cache",
-				zap.String("mac", mac.String()),
-				zap.Error(err),
-			)
+		// Remove from fast path cache (MAC-based; only 6-byte addresses are cached)
+		if len(mac) == fastPathMACLen {
+			macU64 := ebpf.MACToUint64(mac)
+			if err := s.loader.RemoveSubscriber(macU64); err != nil {
+				s.logger.Warn("Failed to remove from fast path cache",
+					zap.String("mac", mac.String()),
+					zap.Error(err),
+				)
+			}
 		}
 
 		// Remove from VLAN-based cache for QinQ deployments
@@ -1237,11 +1239,13 @@ func (s *Server) purgeFastPathCache(mac net.HardwareAddr, lease *Lease) {
 		return
 	}
 
-	if err := s.loader.RemoveSubscriber(ebpf.MACToUint64(mac)); err != nil {
-		s.logger.Debug("Failed to remove from fast path cache",
-			zap.String("mac", mac.String()),
-			zap.Error(err),
-		)
+	if len(mac) == fastPathMACLen {
+		if err := s.loader.RemoveSubscriber(ebpf.MACToUint64(mac)); err != nil {
+			s.logger.Debug("Failed to remove from fast path cache",
+				zap.String("mac", mac.String()),
+				zap.Error(err),
+			)
+		}
 	}
 
 	if (lease.STag > 0 || lease.CTag > 0) && s.loader.HasVLANSupport() {
@@ -1318,6 +1322,11 @@ func (s *Server) buildNAK(req *dhcpv4.DHCPv4, reason string) (*dhcpv4.DHCPv4, er
 	)
 }
 
+// fastPathMACLen is the only hardware address length the MAC-keyed fast path
+// cache (subscriber_pools) serves; it matches the hlen check in
+// bpf/dhcp_fastpath.c lookup_subscriber().
+const fastPathMACLen = 6
+
 // updateFastPathCache updates the eBPF fast path cache
 func (s *Server) updateFastPathCache(mac net.HardwareAddr, lease *Lease, pool *Pool) error {
 	if s.loader == nil {
@@ -1333,10 +1342,15 @@ func (s *Server) updateFastPathCache(mac net.HardwareAddr, lease *Lease, pool *P
 		Flags:       0,
 	}
 
-	// Always update MAC-based cache
-	macU64 := ebpf.MACToUint64(mac)
-	if err := s.loader.AddSubscriber(macU64, assignment); err != nil {
-		return err
+	// Update MAC-based cache.  The XDP program keys subscriber_pools by the six
+	// chaddr bytes of an Ethernet client; a hardware address of any other length
+	// (hlen != 6) has no such key - MACToUint64 would alias every shorter address
+	// to key 0 - so such a client is not cached and stays on the slow path.
+	if len(mac) == fastPathMACLen {
+		macU64 := ebpf.MACToUint64(mac)
+		if err := s.loader.AddSubscriber(macU64, assignment); err != nil {
+			return err
+		}
 	}
 
 	// Also update VLAN-based cache for QinQ deployments
